@@ -199,7 +199,9 @@ impl<I: RainDbIterator<Key = Vec<u8>, Error = raindb::RainDBError>> CursorChecke
                 self.last_key = Some(k.clone());
             }
             let got_valid = self.iter.is_valid();
-            let got = if got_valid { self.iter.current().map(|(k, v)| (k.clone(), v.clone())) } else { None };
+            // `current` is documented to answer None on an invalid iterator: ask it in any case
+            let got = self.iter.current().map(|(k, v)| (k.clone(), v.clone()));
+            let got = if got_valid { got } else if got.is_some() { out.violate(format!("{prop}/cursor/current-returns-an-entry-on-an-invalid-iterator"), json!({"ctx": ctx, "op": op})); return false; } else { None };
             let mut problem: Option<&str> = None;
             match (&expected, &got) {
                 (None, None) => {}
